@@ -182,4 +182,95 @@ theorem concatenate_channels (byTol : Bool) (τ : Rat) (hτ : 0 < τ) (chans : L
   · exact mapMExcept_ok' _ out chans (fun ch hc =>
       compiledChannel_eq byTol τ hτ lastp.mode final ms hmspos ch (hch ch hc).2 (hends ch hc))
 
+theorem concatenateZ_channels (byTol : Bool) (τ : Rat) (hτ : 0 < τ) (chans : List (List (Rat × Wave)))
+    (hne : chans ≠ []) (hch : ∀ ch ∈ chans, ch ≠ [] ∧ Valid byTol τ true 0 ch) :
+    ∃ (_pm : Mode) (final ms : Rat) (outs : List (List Rat × List Rat)),
+      0 < ms ∧ (∀ ch ∈ chans, endOf 0 ch ≤ final) ∧
+      concatenate byTol τ chans = .ok outs ∧ concatenateZ byTol τ chans = .ok (outs.map some) := by
+  let g : List (Rat × Wave) → List Rat × List Rat × Rat := fun ch =>
+    ((headChunk true ch).1 ++ (pureLoop 0 ch).1, (headChunk true ch).2 ++ (pureLoop 0 ch).2, endOf 0 ch)
+  have hloop : mapMExcept (chanLoop byTol τ true 0) chans = .ok (chans.map g) :=
+    mapMExcept_ok' _ g chans (fun ch hc =>
+      chanLoop_refines byTol τ hτ ch true 0 Rat.le_refl (fun _ => rfl) (hch ch hc).2)
+  have hany : chans.any (·.isEmpty) = false := by
+    rw [List.any_eq_false]; intro ch hc
+    have := (hch ch hc).1
+    cases ch <;> simp_all
+  obtain ⟨final, hfinal, hfle⟩ := maxList_spec ((chans.map g).map (·.2.2)) (by simpa using hne)
+  -- procs
+  have hprocs_ne : procs chans ≠ [] := by
+    obtain ⟨ch, rest⟩ : ∃ ch rest, chans = ch :: rest := by
+      cases chans with
+      | nil => exact absurd rfl hne
+      | cons a b => exact ⟨a, b, rfl⟩
+    obtain ⟨rest, rfl⟩ := rest
+    obtain ⟨hcne, hcv⟩ := hch ch (by simp)
+    cases ch with
+    | nil => exact absurd rfl hcne
+    | cons sw r =>
+      obtain ⟨p, hpp, _⟩ := procPulse_ok sw.2 (Valid.chain hcv).1
+      simp [procs, hpp]
+  have hprocs_pos : ∀ p ∈ procs chans, 0 < p.step := by
+    intro p hp
+    simp only [procs, List.mem_filterMap, List.mem_flatten] at hp
+    obtain ⟨sw, ⟨ch, hch', hsw⟩, hp⟩ := hp
+    have hw := chain_all_ok (Valid.chain (hch ch hch').2) sw hsw
+    obtain ⟨p', hpp, hpo⟩ := procPulse_ok sw.2 hw
+    rw [hpp] at hp
+    cases hp
+    exact hpo.step_pos
+  obtain ⟨ms, hms, hmspos⟩ := minStep_spec (procs chans) hprocs_ne hprocs_pos
+  obtain ⟨lastp, hlastp⟩ : ∃ lp, (procs chans).getLast? = some lp :=
+    ⟨_, List.getLast?_eq_some_getLast hprocs_ne⟩
+  have hends : ∀ ch ∈ chans, endOf 0 ch ≤ final := by
+    intro ch hc
+    apply hfle
+    simp only [List.map_map, List.mem_map, Function.comp]
+    exact ⟨ch, hc, rfl⟩
+  let out : List (Rat × Wave) → List Rat × List Rat := fun ch =>
+    ((headChunk true ch).1 ++ (pureLoop 0 ch).1 ++ padPts τ lastp.mode final ms (endOf 0 ch),
+     (headChunk true ch).2 ++ (pureLoop 0 ch).2 ++ (padPts τ lastp.mode final ms (endOf 0 ch)).map (fun _ => (0 : Rat)))
+  have hnonempty : ∀ r ∈ chans.map g, r.1.isEmpty = false := by
+    intro r hr
+    obtain ⟨ch, hc, rfl⟩ := List.mem_map.mp hr
+    have := (hch ch hc).1
+    cases ch with
+    | nil => exact absurd rfl this
+    | cons sw rest => obtain ⟨s', w'⟩ := sw; simp [g, headChunk, zeroChunk]
+  have hfilter : (chans.map g).filter (fun r => !r.1.isEmpty) = chans.map g := by
+    rw [List.filter_eq_self]; intro r hr; simp [hnonempty r hr]
+  refine ⟨lastp.mode, final, ms, chans.map out, hmspos, hends, ?_, ?_⟩
+  · unfold concatenate
+    rw [hloop]
+    simp only [hany, Bool.false_eq_true, if_false, hfinal, hms, hlastp]
+    have := mapMExcept_ok' (padChan τ lastp.mode final ms) (fun r : List Rat × List Rat × Rat =>
+        (r.1 ++ padPts τ lastp.mode final ms r.2.2, r.2.1 ++ (padPts τ lastp.mode final ms r.2.2).map (fun _ => (0 : Rat))))
+      (chans.map g) (by
+        intro r hr
+        obtain ⟨ch, hc, rfl⟩ := List.mem_map.mp hr
+        exact padChan_eq τ hτ lastp.mode final ms hmspos _ _ _ (hends ch hc))
+    rw [this, List.map_map]
+    rfl
+  · unfold concatenateZ
+    rw [hloop]
+    simp only [hfilter, hfinal, Option.getD_some, hms, hlastp]
+    have := mapMExcept_ok' (padChanO τ lastp.mode final ms)
+      (fun r : List Rat × List Rat × Rat =>
+        some (r.1 ++ padPts τ lastp.mode final ms r.2.2, r.2.1 ++ (padPts τ lastp.mode final ms r.2.2).map (fun _ => (0 : Rat))))
+      (chans.map g) (by
+        intro r hr
+        obtain ⟨ch, hc, rfl⟩ := List.mem_map.mp hr
+        have h1 := hnonempty (g ch) hr
+        unfold padChanO
+        simp only [h1, Bool.false_eq_true, if_false]
+        rw [padChan_eq τ hτ lastp.mode final ms hmspos _ _ _ (hends ch hc)])
+    rw [this, List.map_map, List.map_map]
+    rfl
+
+theorem concatenateZ_nil (byTol : Bool) (τ : Rat) : concatenateZ byTol τ [] = .ok [] := by
+  simp [concatenateZ, mapMExcept, procs, minStep]
+
+theorem concatenate_nil (byTol : Bool) (τ : Rat) : concatenate byTol τ [] = .error .empty := by
+  simp [concatenate, mapMExcept, maxList]
+
 end QipVerif.Concat
